@@ -154,5 +154,62 @@ theorem Rep.followingSiblings_root {a : Arena} {g : Shape} (r : Rep a g) (i : Na
   rw [((r.ptrs i si hsi hi0).root hpar).2]
   cases n <;> simp [walkTo]
 
+/-- Backward walk up to the first child (`DoubleEndedIter` along `previous_sibling`). -/
+theorem Rep.walkTo_prev {a : Arena} {g : Shape} (r : Rep a g) (p : Nat) (first : Nat) :
+    ∀ (rpre suf : List Nat) (k : Nat), g.kids p = rpre.reverse ++ k :: suf → (g.kids p).head? = some first →
+      ∀ limit, (k :: rpre).length ≤ limit →
+      walkTo a (·.prev) limit (some (a.idAt k)) (some (a.idAt first)) = .done a ((k :: rpre).map a.idAt) := by
+  intro rpre
+  induction rpre with
+  | nil =>
+    intro suf k hk hf limit hlim
+    obtain ⟨n, rfl⟩ : ∃ n, limit = n + 1 := ⟨limit - 1, by simp at hlim; omega⟩
+    rw [hk] at hf; simp at hf; subst hf
+    simp [walkTo]
+  | cons k' rp ih =>
+    intro suf k hk hf limit hlim
+    obtain ⟨n, rfl⟩ : ∃ n, limit = n + 1 := ⟨limit - 1, by simp at hlim; omega⟩
+    have hnd : ((k' :: rp).reverse ++ k :: suf).Nodup := by rw [← hk]; exact r.kidsNodup p
+    have hkmem : k ∈ g.kids p := by rw [hk]; simp
+    obtain ⟨sk, hsk, hk0⟩ := (r.kidsLive p k hkmem).2.1
+    have hfirstmem : first ∈ (k' :: rp).reverse := by
+      rw [hk] at hf
+      have : ((k' :: rp).reverse ++ k :: suf).head? = (k' :: rp).reverse.head? := by
+        cases h : (k' :: rp).reverse with
+        | nil => simp at h
+        | cons y ys => simp
+      rw [this] at hf
+      exact List.mem_of_mem_head? hf
+    have hne : k ≠ first := by
+      intro e; subst e
+      exact (List.nodup_append.mp hnd).2.2 k hfirstmem k (by simp) rfl
+    unfold walkTo
+    simp only [idAt_ne a hne, if_false]
+    rw [rd_some _ _ _ _ (show a.slot (a.idAt k).index0 = some sk by rw [idAt_index0]; exact hsk)]
+    obtain ⟨L1, R1, e1, e2, _⟩ := (r.ptrs k sk hsk hk0).sib p (r.kidsLive p k hkmem).2.2
+    obtain ⟨hL, _⟩ := split_unique (by rw [← e1]; exact r.kidsNodup p) (e1.symm.trans hk)
+    have hprev : sk.prev = some (a.idAt k') := by rw [e2, hL]; simp
+    simp only [hprev]
+    rw [ih (k :: suf) k' (by rw [hk]; simp) hf n (by simp at hlim ⊢; omega)]
+    simp
+
+/-- `preceding_siblings` of a node with a parent: the node, then what precedes it, nearest first. -/
+theorem Rep.precedingSiblings_eq {a : Arena} {g : Shape} (r : Rep a g) (i p : Nat) (L R : List Nat) (hi : Live a i)
+    (hpar : g.par i = some p) (hk : g.kids p = L ++ i :: R) (limit : Nat) (hlim : (i :: L).length ≤ limit) :
+    precedingSiblings a (a.idAt i) limit = .done a ((i :: L.reverse).map a.idAt) := by
+  obtain ⟨si, hsi, hi0⟩ := hi
+  obtain ⟨sp, hsp, hp0⟩ := (r.live_of_par hpar).2
+  unfold precedingSiblings parentField get
+  have hsi' : a.nodes[(a.idAt i).index0]? = some si := by rw [idAt_index0]; exact hsi
+  have hparent : si.parent = some (a.idAt p) := by rw [(r.ptrs i si hsi hi0).parent, hpar]; rfl
+  have hsp' : a.nodes[(a.idAt p).index0]? = some sp := by rw [idAt_index0]; exact hsp
+  simp only [hsi', hparent, hsp']
+  rw [(r.ptrs p sp hsp hp0).first]
+  cases hf : (g.kids p).head? with
+  | none => rw [hk] at hf; cases L <;> simp at hf
+  | some first =>
+    simp only [Option.map_some]
+    exact r.walkTo_prev p first L.reverse R i (by rw [hk]; simp) hf limit (by simpa using hlim)
+
 end Arena
 end XotModel
